@@ -355,6 +355,14 @@ class History:
                 except OSError:
                     ev["cached"] = 0
 
+    def op_exsetup(self, x):
+        """executor.setup(): the setup nodes the executor's targets need (its exclude list applies, its roots do not)."""
+        if x not in self.execs:
+            return
+        exe = self.execs[x][0]
+        i = [k for k, d in self.inst.items() if d is exe.dag][0]
+        self.observe("exsetup", i, lambda: self.run(lambda: exe.setup()), extra={"x": x})
+
     def op_restart(self, i, f, r=-1, xx=-1, t=-1, dep=-1):
         if f not in self.files:
             return
@@ -460,7 +468,7 @@ def alphabet(D, rng):
     leaf = reg[-1]
     mid = reg[0]
     A += [("exnew", 1, 1, -1, -1, mask([leaf])), ("exnew", 1, 2, -1, mask([leaf]), -1), ("exnew", 1, 1),
-          ("exrun", 1, full), ("exrun", 1, failing), ("exrun", 2, other),
+          ("exrun", 1, full), ("exrun", 1, failing), ("exrun", 2, other), ("exsetup", 1), ("exsetup", 2),
           ("copy", 1, 2), ("call", 2, full), ("call", 2, omit)]
     if setup:
         A += [("setup", 2)]
